@@ -565,6 +565,10 @@ func ScalarCase(t *rapid.T, label string) (*ref.SNode, []Probe) {
 			{Kind: ref.KNumber, Tok: "1.5"}, {Kind: ref.KNumber, Tok: "-2"}, {Kind: ref.KFalse, Tok: "false"}, {Kind: ref.KString, Tok: `""`, Str: ""},
 			{Kind: ref.KString, Tok: `"a b"`, Str: "a b"}, {Kind: ref.KNumber, Tok: "100"}, {Kind: ref.KString, Tok: `"é"`, Str: "é"},
 			{Kind: ref.KString, Tok: `"\n"`, Str: "\n"}, {Kind: ref.KNumber, Tok: "0.25"},
+			// strings that look like numbers: membership is equality of the decoded text, not of a number
+			{Kind: ref.KString, Tok: `"1.5"`, Str: "1.5"}, {Kind: ref.KString, Tok: `"100"`, Str: "100"}, {Kind: ref.KString, Tok: `"0"`, Str: "0"},
+			// numbers written with trailing zeros (shown as written by the AST, equal by value)
+			{Kind: ref.KNumber, Tok: "2.50"}, {Kind: ref.KNumber, Tok: "3.0"}, {Kind: ref.KNumber, Tok: "0.10"},
 		}
 		for i := 0; i < cnt; i++ {
 			it := rapid.SampledFrom(pool).Draw(t, label+"EnumItem")
@@ -590,6 +594,14 @@ func ScalarCase(t *rapid.T, label string) (*ref.SNode, []Probe) {
 				add(strVal(it.Tok), "enum:kind-flip")
 			case ref.KString:
 				add(&ref.Value{Kind: ref.KString, Tok: Respell(t, it.Str, label+"ER"), Str: it.Str}, "enum:respelled-string")
+				if d, ok := ref.ParseDecimal(it.Str); ok {
+					// another numeral with the same value, as a string: a different text, so not a member
+					for _, alt := range []string{it.Str + pad(it.Str), d.Expansion() + ".0", "-" + it.Str, d.Expansion() + "e0"} {
+						if alt != it.Str {
+							add(strVal(alt), "enum:kind-flip:number-looking-string")
+						}
+					}
+				}
 				if v, err := ref.Parse([]byte(it.Str)); err == nil && v.Kind != ref.KObject && v.Kind != ref.KArray {
 					add(v, "enum:kind-flip")
 				}
